@@ -4,8 +4,10 @@
    Model: model/Sync.v = the code after the fix commits ca69f52, bb1bffb, ad91329 (one room, one entity
    of node rows; which days a pull exchanges is an argument — the daily-log comparison is C09's subject).
    Former classes 2 (a deletion record removing another version) and 3 (two deletion records collapsing
-   to one) are repaired and are covered by C03_outside_known, which now includes deletions; class 4
-   (a pull that skips a day the receiver needs: history-hash shortcut, C09 class 4) is still open. *)
+   to one) are repaired and are covered by C03_outside_known, which includes deletions and references; open:
+   class 4 (a pull that skips a day the receiver needs: history-hash shortcut, C09 class 4), class 5 (the
+   references of the losing version of a row are never delivered), class 6 (a reference deletion record
+   leaves an older version of the same reference in place). *)
 From DV Require Import Sync SyncObs SyncP Run_C03 C03P C03Q.
 
 (* the statement at full strength, against the faithful model: for every history the model's own
@@ -20,14 +22,36 @@ Theorem C03_refuted_skipped_day :
 Proof. exact refuted_skipped_day. Qed.
 Print Assumptions C03_refuted_skipped_day.
 
+(* ... when two peers concurrently add different references to one row: the references of the losing
+   version never reach the other peer (Query::Edges is asked only for rows that pass filter_existing) —
+   class 5, open; the members stay different although nothing moves any more *)
+Theorem C03_refuted_ref_lost :
+  spec_C03 witness_ref_lost (run_C03 witness_ref_lost) = false /\ known_C03 witness_ref_lost = [5] /\
+  c03_quiet witness_ref_lost = true /\
+  map (fun r => map (fun e => (e_src e, e_dest e)) (shown_refs r)) (run_sys (init_sys 2%N) (c03_ops witness_ref_lost)) =
+  [[(1%N, 3%N); (1%N, 2%N)]; [(1%N, 3%N)]].
+Proof. exact refuted_ref_lost. Qed.
+Print Assumptions C03_refuted_ref_lost.
+
+(* ... and when a reference deletion record meets an older version of the same reference: it removes
+   only the exactly named version (EdgeDeletionEntry::delete_all compares the creation date) — class 6, open *)
+Theorem C03_refuted_ref_below :
+  spec_C03 witness_ref_below (run_C03 witness_ref_below) = false /\ known_C03 witness_ref_below = [6] /\
+  map (fun r => (length (shown_refs r), length (etombs r))) (run_sys (init_sys 2%N) (c03_ops witness_ref_below)) = [(1, 1); (0, 1)]%nat.
+Proof. exact refuted_ref_below. Qed.
+Print Assumptions C03_refuted_ref_below.
+
 Theorem C03_refuted : ~ C03_full.
 Proof. intros H. pose proof (H witness_skipped_day) as E. rewrite (proj1 refuted_skipped_day) in E. discriminate. Qed.
 Print Assumptions C03_refuted.
 
-(* outside the open class: any number of peers, any history of creations, updates (any clocks inside
-   the envelope, same-millisecond ties included), DELETIONS and pulls in any order, every pull having
-   selected the days a complete comparison selects (known_C03 = []), ending with rounds in which every
-   ordered pair pulls and nothing moves: every member holds the same rows and the same deletion records.
+(* outside the open classes: any number of peers, any history of creations, updates (any clocks inside
+   the envelope, same-millisecond ties included), deletions, REFERENCE additions and removals, and pulls
+   in any order — every pull having selected the days a complete comparison selects (class 4), having
+   left no shown reference undelivered (class 5), no reference ever lying below a reference deletion
+   record (class 6): known_C03 = [] —, ending with rounds in which every ordered pair pulls and nothing
+   moves: every member holds the same rows and the same deletion records, shows the same references and
+   holds the same reference deletion records ([all_agree] is the function spec_C03 applies to the dumps).
    [run_sys (init_sys n) ops] is the system whose dumps [run_C03] prints; the envelope (decided on the
    run) = creations use ids the peer does not know yet, no local update carries a clock behind the
    version it replaces. *)
@@ -118,6 +142,15 @@ Example C03_other_version_holds :
   [([63000], 2%nat); ([63000], 2%nat); ([63000], 2%nat)].
 Proof. exact other_version_holds. Qed.
 Print Assumptions C03_other_version_holds.
+
+Example C03_refs_nonvacuous :
+  spec_C03 example_refs_ok (run_C03 example_refs_ok) = true /\ known_C03 example_refs_ok = [] /\
+  c03_quiet example_refs_ok = true /\ c03_envelope example_refs_ok = true /\
+  full_round 2%N (c03_final example_refs_ok) = true /\
+  map (fun r => (map e_cdate (shown_refs r), length (etombs r))) (run_sys (init_sys 2%N) (c03_ops example_refs_ok)) =
+  [([31000], 1%nat); ([31000], 1%nat)].
+Proof. exact refs_nonvacuous. Qed.
+Print Assumptions C03_refs_nonvacuous.
 
 Example C03_nonvacuous :
   known_C03 example_ok = [] /\ c03_envelope example_ok = true /\
